@@ -681,7 +681,8 @@ def run(prop, args):
                 continue
             tr, out = run_driver(exe, sub, wd, "c%d_b%d" % (ci, bi), chain)
             want = len(chain.split())
-            if out.count("pixman: Disabled") != want:
+            crashed = '"e":"Crash"' in open(tr).read()[-200:]
+            if out.count("pixman: Disabled") != want and not crashed:
                 raise vf.Infra("PIXMAN_DISABLE=%r not honoured by the driver process (stdout: %r)" % (chain, out[:300]))
             traces.append(tr)
             tally(chk, tr, chain, prop)
